@@ -36,31 +36,78 @@ func c34Cutoff(seg []byte, variant int) int64 {
 	}
 }
 
+// c34ExactS3 is the in-memory S3 fake with downloads delivered the way a Content-Length sized
+// read delivers them: a buffer with no spare capacity behind the object (MemoryS3Client itself
+// returns append([]byte(nil), data...), whose capacity the allocator rounds up to a size class,
+// so an over-read of the object lands in slack bytes instead of failing).
+type c34ExactS3 struct{ *MemoryS3Client }
+
+func (s c34ExactS3) DownloadSegment(ctx context.Context, key string, rng *ByteRange) ([]byte, error) {
+	b, err := s.MemoryS3Client.DownloadSegment(ctx, key, rng)
+	return verifc34.Exact(b), err
+}
+
+func (s c34ExactS3) DownloadIndex(ctx context.Context, key string) ([]byte, error) {
+	b, err := s.MemoryS3Client.DownloadIndex(ctx, key)
+	return verifc34.Exact(b), err
+}
+
+// c34S3 picks how the restore receives its bytes: 0 = the repo's fake as it is (size-class
+// rounded copies), 1 = exact-capacity copies.
+func c34S3(mode int) (S3Client, *MemoryS3Client) {
+	m := NewMemoryS3Client()
+	if mode == 1 {
+		return c34ExactS3{m}, m
+	}
+	return m, m
+}
+
+var c34DefaultIndex = []byte("IDX\x00\x00\x01\x00\x00\x00\x00\x00\x00\x00\x64\x00\x00")
+
 func c34Targets() []verifc34.Target {
 	return []verifc34.Target{
 		{Name: "collectRecoverableBatches", Variants: 4, Fn: func(in *verifc34.Input, v int) (int, error) {
 			bs, err := collectRecoverableBatches(in.Data, c34Cutoff(in.Data, v))
 			return len(bs), err
 		}},
-		{Name: "buildRestorePlan", Variants: 1, Fn: func(in *verifc34.Input, v int) (int, error) {
-			idx := in.Aux
+		// variants: 0..2 = the crashbox's exact-capacity bytes with T = first batch's first timestamp,
+		// that + 500 ms, +inf; 3, 4 = T = +inf with segment and index fetched from the S3 fake the way
+		// RecoverTopicToTimestamp fetches them (3: exact-capacity downloads, 4: the fake's own copies)
+		{Name: "buildRestorePlan", Variants: 5, Fn: func(in *verifc34.Input, v int) (int, error) {
+			seg, idx := in.Data, in.Aux
 			if idx == nil {
-				idx = []byte("IDX\x00\x00\x01\x00\x00\x00\x00\x00\x00\x00\x64\x00\x00")
+				idx = verifc34.Exact(c34DefaultIndex)
 			}
-			plan, err := buildRestorePlan(in.Data, idx, time.UnixMilli(c34Cutoff(in.Data, 1+v)), time.UnixMilli(1_700_000_000_000))
+			cut := []int{1, 2, 0, 0, 0}[v]
+			if v >= 3 {
+				s3, mem := c34S3(4 - v)
+				ctx := context.Background()
+				sk, ik := segmentObjectKey("default", "src", 0, 0), segmentIndexKey("default", "src", 0, 0)
+				_ = mem.UploadSegment(ctx, sk, seg)
+				_ = mem.UploadIndex(ctx, ik, idx)
+				var err error
+				if seg, err = s3.DownloadSegment(ctx, sk, nil); err != nil {
+					return 0, err
+				}
+				if idx, err = s3.DownloadIndex(ctx, ik); err != nil {
+					return 0, err
+				}
+			}
+			plan, err := buildRestorePlan(seg, idx, time.UnixMilli(c34Cutoff(in.Data, cut)), time.UnixMilli(1_700_000_000_000))
 			if err != nil || plan == nil || !plan.keep {
 				return 0, err
 			}
 			return 1, nil
 		}},
-		{Name: "RecoverTopicToTimestamp", Variants: 2, Fn: func(in *verifc34.Input, v int) (int, error) {
-			s3 := NewMemoryS3Client()
+		// variants: bit 0 = T (+inf, first + 500 ms), bit 1 = S3 delivery (the fake's own copies, exact-capacity copies)
+		{Name: "RecoverTopicToTimestamp", Variants: 4, Fn: func(in *verifc34.Input, v int) (int, error) {
+			s3, mem := c34S3(v >> 1)
 			ctx := context.Background()
-			_ = s3.UploadSegment(ctx, segmentObjectKey("default", "src", 0, 0), in.Data)
+			_ = mem.UploadSegment(ctx, segmentObjectKey("default", "src", 0, 0), in.Data)
 			if in.Aux != nil {
-				_ = s3.UploadIndex(ctx, segmentIndexKey("default", "src", 0, 0), in.Aux)
+				_ = mem.UploadIndex(ctx, segmentIndexKey("default", "src", 0, 0), in.Aux)
 			}
-			T := c34Cutoff(in.Data, v*2) // +inf, first+500
+			T := c34Cutoff(in.Data, (v&1)*2) // +inf, first+500
 			if T == 0 {
 				T = 1
 			}
@@ -89,7 +136,7 @@ func TestVerifC34Child(t *testing.T) {
 
 func TestVerifC34Storage(t *testing.T) {
 	r := verifkit.Start(t, "C34", "pitr")
-	defer r.Finish("crashbox over the restore scanner in pkg/storage: collectRecoverableBatches(segment, T) with T in {+inf, first batch's first timestamp, that + 500 ms, -inf} (whole-batch path, per-record scanRecord path, nothing kept), buildRestorePlan(segment, index, T), the whole RecoverTopicToTimestamp over an S3 fake holding the hostile segment+index, and ParseIndex on the index container; same corpus, child-process containment, panic / death / > 64 MiB per call oracle and site classes as the processor legs; non-trivial = input passes size/magic/framing",
+	defer r.Finish("crashbox over the restore scanner in pkg/storage: collectRecoverableBatches(segment, T) with T in {+inf, first batch's first timestamp, that + 500 ms, -inf} (whole-batch path, per-record scanRecord path, nothing kept), buildRestorePlan(segment, index, T) with T in {first, first + 500 ms, +inf} on the crashbox's exact-capacity bytes and with T = +inf on bytes downloaded from the in-memory S3 fake (once delivering exact-capacity copies like a Content-Length sized read, once its own size-class rounded copies), the whole RecoverTopicToTimestamp (T in {+inf, first + 500 ms}) over the S3 fake holding the hostile segment+index in both delivery modes, and ParseIndex on the index container; every input is handed over as a fresh slice whose capacity equals its length, so a read past the end of the object (e.g. a header peek on a runt frame at the end of the body) is a panic rather than a read of slack bytes; same corpus, child-process containment, panic / death / > 64 MiB per call oracle and site classes as the processor legs; non-trivial = input passes size/magic/framing",
 		"child address space capped at 4 GiB (RLIMIT_AS); race detector off in this leg for that reason")
 	dir := verifc34.CorpusDir()
 	work := filepath.Join(filepath.Dir(dir), "c34work-storage")
